@@ -101,6 +101,7 @@ pub const EDGE_SCALARS: &[&str] = &[
     "2021-06-07T12:00:00+99:99", "2021-06-07T12:00:00Z New_York", "2021-06-07T12:00:00-04:00 Nowhere", "2021-06-07T12:00:00-04:00", "2021-06-07T12:00:00-04:00 UTC",
     "2021-03-14T02:30:00-05:00 New_York", "2021-11-07T01:30:00-04:00 New_York", "2021-11-07T01:30:00-05:00 New_York", "1883-11-18T12:00:00-05:00 New_York", "2021-06-07T12:00:00Z Z",
     "2021-06-07T12:00:00.123456789Z", "2021-06-07T12:00:00+00:00 UTC", "2021-06-07T12:00:00-00:00 UTC", "2021-06-07T12:00:00Z GMT", "2021-06-07T12:00:00+01:00 GMT-1", "2021-06-07T12:00:00+01:00 Etc/GMT-1",
+    "0.00000000000000000000001", "0.000000000000000000000000000042kW", "0.00000000000000000000000", "0.30000000000000000000000004", "123456789012345678901234567890", "6.02214076e23", "1e25",
     "1e308", "1.7976931348623157e308", "1e309", "-1e309", "4.9e-324", "1e-400", "9007199254740993", "18446744073709551616", "0.1", "1E5", "1e+5", "1e", "1e+", "1_0", "1_", "1__0", "5.", ".5", "-", "-.5", "00012", "1kW/h%$", "1 kW",
     "1_000_000.000_1kW", "-0kW", "NaNkW", "INFkW", "-INF", "+INF", "+1", "0x10",
     "C(90,180)", "C(-90,-180)", "C(91,181)", "C(NaN,1)", "C(1)", "C(1,2,3)", "C(1e400,0)", "C(-0,-0)", "C( 1 , 2 )",
@@ -200,8 +201,11 @@ impl<'r> Emitter<'r> {
         if self.rng.chance(1, 4) {
             s.push('-');
         }
-        let int_len = self.rng.range(1, 6);
-        let int = self.digits(int_len);
+        // digit counts: mostly short, now and then long (17+ significant digits, 20-40 digits) or
+        // padded with zeros on either side of the point
+        let long = self.cfg.exotic && self.rng.chance(1, 12);
+        let int_len = if long && self.rng.chance(1, 2) { self.rng.range(15, 40) } else { self.rng.range(1, 6) };
+        let int = if long && self.rng.chance(1, 3) { "0".repeat(int_len) } else { self.digits(int_len) };
         if self.rng.chance(1, 8) && int.len() > 3 {
             // digit group separators are legal: 1_000
             let (a, b) = int.split_at(int.len() - 3);
@@ -213,8 +217,12 @@ impl<'r> Emitter<'r> {
         }
         if self.rng.chance(1, 2) {
             s.push('.');
-            let n = self.rng.range(1, 6);
-            s.push_str(&self.digits(n));
+            let n = if long { self.rng.range(15, 45) } else { self.rng.range(1, 6) };
+            let zeros = if long && self.rng.chance(1, 2) { self.rng.range(1, n) } else { 0 };
+            s.push_str(&"0".repeat(zeros.min(n)));
+            if n > zeros {
+                s.push_str(&self.digits(n - zeros));
+            }
         }
         if self.rng.chance(1, 5) {
             s.push(*self.rng.pick(&['e', 'E']));
